@@ -419,6 +419,12 @@ class BaseDriverLibrary(BaseAlgorithmLibrary):
                     result = self._get_early_stopping_result(
                         problem, termination_criterion
                     )
+            except BaseException:
+                # The algorithm failed, e.g. a function raised an exception:
+                # do not leave the listeners of this execution in the database,
+                # they would count the iterations of the next executions too.
+                self._clear_listeners(problem)
+                raise
 
         self.__progress_bar.finalize_iter_observer()
         self._clear_listeners(problem)
